@@ -4,7 +4,7 @@
 # Then stores the seed under /verif/seeded/<Cxx>-<n>/.
 set -u
 P=$1; N=$2; DEST=$3; DEMO=$4; SUITE=$5
-W=/tmp/seed/$P; S=$W/_seed/$N
+W=${SEEDROOT:-/tmp/seed}/$P; S=$W/_seed/$N; OUT=${OUTNAME:-$P-$N}
 export GOFLAGS=-mod=mod GOPROXY=off
 cd $W || exit 2
 git checkout -q -- . ; git clean -fdq -e _seed
@@ -12,15 +12,15 @@ demos=$(ls $S | grep -v -e patch.diff -e demo.md -e meta.json -e "\.log$")
 cpdemo() { for f in $demos; do cp $S/$f $W/$DEST/; done; }
 rmdemo() { for f in $demos; do rm -f $W/$DEST/$f; done; }
 cpdemo
-( eval "$DEMO" ) > /tmp/seed/$P.$N.pristine.log 2>&1; a=$?
+( eval "$DEMO" ) > /tmp/seedlogs/$P.$N.pristine.log 2>&1; a=$?
 git apply $S/patch.diff || { echo "PATCH DOES NOT APPLY"; exit 2; }
-( eval "$DEMO" ) > /tmp/seed/$P.$N.patched.log 2>&1; b=$?
+( eval "$DEMO" ) > /tmp/seedlogs/$P.$N.patched.log 2>&1; b=$?
 rmdemo
-( eval "$SUITE" ) > /tmp/seed/$P.$N.suite.log 2>&1; c=$?
+( eval "$SUITE" ) > /tmp/seedlogs/$P.$N.suite.log 2>&1; c=$?
 git checkout -q -- . ; git clean -fdq -e _seed
 echo "$P-$N: demo pristine exit=$a (want 0), demo patched exit=$b (want !=0), suite patched exit=$c (want 0)"
 if [ $a -eq 0 ] && [ $b -ne 0 ] && [ $c -eq 0 ]; then
-  D=/verif/seeded/$P-$N; mkdir -p $D; cp $S/* $D/
+  D=/verif/seeded/$OUT; mkdir -p $D; cp $S/* $D/
   python3 - "$D" "$DEST" "$DEMO" "$SUITE" <<'PY'
 import json,sys
 d,dest,demo,suite=sys.argv[1:5]
@@ -30,5 +30,5 @@ json.dump(m,open(d+'/meta.json','w'),indent=1)
 PY
   echo "stored $D"
 else
-  tail -5 /tmp/seed/$P.$N.*.log
+  tail -5 /tmp/seedlogs/$P.$N.*.log
 fi
